@@ -69,9 +69,9 @@ impl Tracker {
     }
 }
 
-fn judge(env: &Env, case: &Case, excl: &std::cell::Cell<u64>, info: &mut CaseInfo) -> Verdict {
+fn judge(env: &Env, kit: &crate::fmtx::Kit, case: &Case, excl: &std::cell::Cell<u64>, info: &mut CaseInfo) -> Verdict {
     let keep = case.keep;
-    let config = if case.via_file { env.config(&[format!("history-size = {}", keep)], &[]) } else { env.config(&[], &["--history".into(), keep.to_string()]) };
+    let config = if case.via_file { env.config(&[format!("history-size = {}", keep), "enable-aspa = true".to_string()], &[]) } else { env.config(&[], &["--history".into(), keep.to_string(), "--enable-aspa".into()]) };
     let config = match config {
         Ok(c) => c,
         Err(_) => return Verdict::Dropped("history_size_not_accepted".into()),
@@ -90,11 +90,14 @@ fn judge(env: &Env, case: &Case, excl: &std::cell::Cell<u64>, info: &mut CaseInf
     let mut unchanged_runs = 0;
     for (step, set) in case.sets.iter().enumerate() {
         let changed = prev.map(|p| p != set).unwrap_or(false);
-        install(&history, &config, set);
+        install_full(kit, &history, &config, set);
         if changed {
             expected += 1;
         } else if prev.is_some() {
             unchanged_runs += 1;
+        }
+        if changed && prev.map(|p| p.origins == set.origins && p.keys == set.keys).unwrap_or(false) {
+            info.class("aspa_only_change");
         }
         prev = Some(set);
         let got = serial_of(&history);
@@ -155,7 +158,7 @@ fn origin(a: u8) -> MItem {
 /// Long alternating history: retention must stay bounded over thousands of changes.
 fn judge_long(env: &Env, case: &LongCase, info: &mut CaseInfo) -> Verdict {
     let keep = case.keep;
-    let config = match env.config(&[], &["--history".into(), keep.to_string()]) {
+    let config = match env.config(&[], &["--history".into(), keep.to_string(), "--enable-aspa".into()]) {
         Ok(c) => c,
         Err(_) => return Verdict::Dropped("history_size_not_accepted".into()),
     };
@@ -192,16 +195,17 @@ fn judge_long(env: &Env, case: &LongCase, info: &mut CaseInfo) -> Verdict {
 }
 
 pub fn case_strategy(max_len: usize) -> impl Strategy<Value = Case> {
-    (prop::sample::select(vec![0usize, 1, 2, 5, 65535]), any::<bool>(), history_strategy(1, max_len, 6, 40)).prop_map(|(keep, via_file, sets)| Case { keep, via_file, sets, known: false })
+    (prop::sample::select(vec![0usize, 1, 2, 5, 65535]), any::<bool>(), prop_oneof![2 => history_strategy(1, max_len, 6, 40), 1 => history_strategy_aspa(1, max_len, 4, 40)]).prop_map(|(keep, via_file, sets)| Case { keep, via_file, sets, known: false })
 }
 
 pub fn run(ctx: &Ctx, rep: &mut Report, replay: Option<&serde_json::Value>) {
-    rep.rule("sequences of 1..=60 (thorough 1..=200) validation results (40 % repeat the previous data set) over <= 6 origins/router keys x history-size in {0,1,2,5,65535} given on the command line (--history) or in the config file (history-size), both read by routinator's parsers; serial checked after every result against the number of changes; retained change sets counted exactly through Weak references to the history's own Arc<PayloadDelta> (bound max(history-size,1)) plus the black-box served-distance bound; long alternating histories (2 000 changes quick; 70 000 for history-size 65535 in thorough) check the bound far beyond the limit; non-trivial = >= 3 changing results beyond the retention limit and >= 1 unchanged result; distinct by serialised case");
+    rep.rule("sequences of 1..=60 (thorough 1..=200) validation results (40 % repeat the previous data set) over <= 6 origins/router keys (a third of the sequences additionally carry ASPAs of two customers that are announced / updated / withdrawn, so some changes are ASPA-only) x history-size in {0,1,2,5,65535} given on the command line (--history) or in the config file (history-size), both read by routinator's parsers; serial checked after every result against the number of changes; retained change sets counted exactly through Weak references to the history's own Arc<PayloadDelta> (bound max(history-size,1)) plus the black-box served-distance bound; long alternating histories (2 000 changes quick; 70 000 for history-size 65535 in thorough) check the bound far beyond the limit; non-trivial = >= 3 changing results beyond the retention limit and >= 1 unchanged result; distinct by serialised case");
     rep.assume("the change set answered for 'one serial behind' is the retained Arc itself (checked per step via strong_count >= 2, otherwise the case is dropped)");
     rep.assume("history-size values > 65535 are accepted on the command line only and pre-allocate the queue; they are not explored (allocation of the queue, not retention)");
     let env = Env::new(ctx.scratch());
     let excl = std::cell::Cell::new(0u64);
-    let prop = |case: &Case, info: &mut CaseInfo| judge(&env, case, &excl, info);
+    let kit = crate::fmtx::Kit::new();
+    let prop = |case: &Case, info: &mut CaseInfo| judge(&env, &kit, case, &excl, info);
     let prop_long = |case: &LongCase, info: &mut CaseInfo| judge_long(&env, case, info);
     if let Some(v) = replay {
         let t: Tagged<serde_json::Value> = serde_json::from_value(v.clone()).expect("replay");
